@@ -31,6 +31,14 @@ PROP = dict(
         "exercised, not proved",
     ],
     assumptions=[
+        "ALIASING is invisible to the value-level model (a dictionary there is a list of pairs, not slices sharing arrays): "
+        "whether a value retained from a variable (struct copy, Keys()/Values()/Items() result) survives a later Unmarshal / "
+        "Put / Marshal through that variable or through a copy is decided only by the stateful oracles go.hm.reuse / "
+        "go.hmb.reuse / go.hma.reuse (random scripts over ONE variable: Unmarshal of smaller, equal and larger dictionaries, "
+        "Put on the variable, Put on retained copies, Marshal of everything; after every step every retained value must "
+        "render as when it was retained). What Go's own semantics allow is not flagged: a struct copy and the Keys()/"
+        "Values() results share arrays with the variable until the next Unmarshal into it, so a Put may show through them. "
+        "Marshal sorts into NEW slices: the receiver's slices are not reordered (checked: marshal-mutates-receiver)",
         "theorems speak about the encoded key bits; the typed layer is modelled on top (encUintKey / encIntKey = what Marshal "
         "writes for a Go integer key, also outside its declared width; the driver keeps typed keys): a typed key outside its "
         "domain is outside C05's quantifier — it is stored under its truncation, Int1 outside {0,-1} makes Marshal fail — and by "
